@@ -65,6 +65,15 @@ func corpus() [][]*label {
 			&label{kind: "UpdPos", r: "cdc", t: "t1", c: 0, cname: "c0", ch: "ch1", p: pi(7, 3)},
 			&label{kind: "GetPos", r: "cdc", t: "t1", c: -10}, &label{kind: "GetPos", r: "cdc", t: "t1", c: -1},
 			&label{kind: "DelPos", r: "cdc", t: "t1", c: -1}, &label{kind: "GetPos", r: "cdc", t: "t1"}, &label{kind: "DelPos", r: "cdc", t: "t1", c: -10}, &label{kind: "GetPos", r: "cdc", t: "t1"}},
+		// a late checkpoint update after the collection's drop was recorded: the source, op and target entries stay frozen
+		// (the target entry is filed under the downstream channel's key, not under the source channel name)
+		{&label{kind: "PutInfo", r: "cdc", info: info("t1", 1, "")},
+			&label{kind: "UpdPos", r: "cdc", t: "t1", c: 7, cname: "c7", ch: "ch1", p: pi(5, 1), op: pi(5, 2), tg: &pinfo{time: 5, key: "tgt-ch9", tok: 3}},
+			&label{kind: "UpdPos", r: "cdc", t: "t1", c: 7, cname: "c7", ch: "ch2", p: pi(5, 4), tg: &pinfo{time: 5, key: "ch1", tok: 5}},
+			&label{kind: "DropState", r: "cdc", t: "t1", c: 7},
+			&label{kind: "UpdPos", r: "cdc", t: "t1", c: 7, cname: "c7", ch: "ch1", p: pi(9, 6), op: pi(9, 7), tg: &pinfo{time: 9, key: "tgt-ch9", tok: 8}},
+			&label{kind: "UpdPos", r: "cdc", t: "t1", c: 7, cname: "c7", ch: "ch2", p: pi(9, 9), tg: &pinfo{time: 9, key: "ch1", tok: 10}},
+			&label{kind: "GetPos", r: "cdc", t: "t1", c: 7}},
 		// two consumers (one per downstream channel) save the checkpoints of two shards of one collection at the same time;
 		// then a checkpoint is saved while the collection's drop is recorded
 		{&label{kind: "PutInfo", r: "cdc", info: info("t1", 1, "")}, &label{kind: "PutPos", r: "cdc", pos: pos("t1", 7, map[string]*pinfo{"ch1": pi(5, 1), "ch2": pi(5, 2)})},
